@@ -420,3 +420,76 @@ func VerifC11Persist() {
 	}
 	verifReach("end")
 }
+
+// VerifC11Race: one ScheduleAsync request races a graceful Shutdown of an otherwise idle runner
+// (pipeline with or without start delay). Every atomic operation, channel operation and blocking lock
+// is a switch point (preemption bound from the run). Whatever the interleaving: the request is either
+// refused with ErrShuttingDown and leaves nothing behind, or its job is terminal and in the store once
+// Shutdown has returned and the request has returned.
+func VerifC11Race() {
+	w := &vWorld{envAtRunner: map[*PipelineJob]map[string]string{}}
+	vW = w
+	c := &vC11{w: w, st: &vStore{}, runningAtStop: map[*vJob]bool{}, runners: map[*PipelineJob]*vRunner{}}
+	vS = c
+	verifIntercept("github.com/gofrs/uuid.NewV4", vNewV4)
+	verifIntercept("time.AfterFunc", vAfterFunc)
+	verifIntercept("(*time.Timer).Stop", vTimerStop)
+	verifIntercept("(*github.com/Flowpack/prunner/taskctl.Scheduler).Schedule", vScheduleThreaded)
+	verifIntercept("time.After", vAfterThreaded)
+	verifIntercept("time.Sleep", vSleepThreaded)
+	def := definition.PipelineDef{Concurrency: 1, Tasks: vTasks(0), Env: vEnv(0)}
+	if verifChoose("start_delay", 2) == 1 {
+		def.StartDelay = time.Second
+		ql := 2
+		def.QueueLimit = &ql
+	}
+	w.defs = &definition.PipelinesDef{Pipelines: map[string]definition.PipelineDef{vP: def}}
+	r, err := NewPipelineRunner(&vCtx{done: make(chan struct{})}, w.defs, func(j *PipelineJob) taskctl.Runner {
+		vr := &vRunner{job: j}
+		c.runners[j] = vr
+		return vr
+	}, c.st, &vOutputStore{})
+	if err != nil {
+		verifFail("harness: NewPipelineRunner failed")
+		return
+	}
+	w.r = r
+	verifGoMode(1)
+	var job *PipelineJob
+	var serr2 error
+	clientDone := false
+	verifGo(func() {
+		verifYieldAny()
+		job, serr2 = r.ScheduleAsync(vP, ScheduleOpts{User: "racer"})
+		clientDone = true
+	})
+	verifYieldAny()
+	verifEvent("SHUTDOWN graceful (racing request)")
+	serr := r.Shutdown(&vCtx{done: make(chan struct{})})
+	c.shutdownRet = true
+	nSavesAtReturn := len(c.st.saved)
+	verifAssert(serr == nil, "C11.graceful-shutdown-succeeds")
+	verifBlockUntil(func() bool { return clientDone })
+	if serr2 != nil {
+		verifReach("racer.rejected")
+		verifAssert(serr2 == ErrShuttingDown && job == nil, "C11.no-request-accepted-after-shutdown")
+		verifAssert(len(r.jobsByID) == 0, "C11.rejected-request-changes-nothing")
+	} else {
+		verifReach("racer.accepted")
+		// accepted: it was accepted before or while the shutdown was in progress, so it is finished and
+		// its final state is what the store holds
+		verifAssert(job != nil && (job.Completed || job.Canceled), "C11.request-accepted-during-shutdown-is-finished")
+		verifAssert(!(job != nil && job.Start == nil && !job.Canceled), "C11.no-job-waiting-at-return")
+		found := false
+		if nSavesAtReturn >= 1 && job != nil {
+			for _, pj := range c.st.saved[nSavesAtReturn-1].Jobs {
+				if pj.ID == job.ID {
+					found = true
+					verifAssert(pj.Completed == job.Completed && pj.Canceled == job.Canceled, "C11.store-equals-final-state")
+				}
+			}
+		}
+		verifAssert(found, "C11.store-holds-every-job")
+	}
+	verifReach("end")
+}
